@@ -327,8 +327,24 @@ def anchored(ctx, col):
                 and all(isinstance(t_, ast.Attribute) and t_.attr == "type" for t_ in st.targets[0].elts):
             n_sw += 1
             (ta, tb), (va, vb) = st.targets[0].elts, st.value.elts
+
+            def through(v_):
+                """a temporary that holds a `.type` read stands for that read"""
+                if isinstance(v_, ast.Name):
+                    b_ = [a_.value for a_ in own_nodes(d) if isinstance(a_, ast.Assign) and len(a_.targets) == 1 and isinstance(a_.targets[0], ast.Name) and a_.targets[0].id == v_.id]
+                    if len(b_) == 1 and isinstance(b_[0], ast.Attribute) and b_[0].attr == "type":
+                        return b_[0]
+                    tb_ = [(a_.targets[0].elts, a_.value.elts) for a_ in own_nodes(d) if isinstance(a_, ast.Assign) and len(a_.targets) == 1 and isinstance(a_.targets[0], ast.Tuple)
+                           and isinstance(a_.value, ast.Tuple) and len(a_.targets[0].elts) == len(a_.value.elts)]
+                    for ts_, vs_ in tb_:
+                        for t_, x_ in zip(ts_, vs_):
+                            if isinstance(t_, ast.Name) and t_.id == v_.id and isinstance(x_, ast.Attribute) and x_.attr == "type":
+                                return x_
+                return v_
+            va, vb = through(va), through(vb)
             crosswise = norm_src(va) == norm_src(tb) and norm_src(vb) == norm_src(ta)
-            consts = [v_ for v_ in (va, vb) if not (isinstance(v_, ast.Attribute) and v_.attr == "type")]
+            # a value that is visibly not a node's type: a literal, or a member of the type table (`tree.types.soma`)
+            consts = [v_ for v_ in (va, vb) if isinstance(v_, ast.Constant) or (isinstance(v_, ast.Attribute) and v_.attr != "type" and "types" in norm_src(v_))]
             if crosswise:
                 col.ok("R-TYPESWAP", d.qualname, d.loc(st), "the two root types are exchanged", norm_src(st), stmt="typeswap")
             elif consts:
